@@ -1,5 +1,18 @@
-"""Gen/Ktn.lean: which counter rule `add_ts` uses and whether `remove_minimum` maintains the
-attempt history, read from the current source."""
+"""Gen/Ktn.lean: the mutators of KineticTransitionNetwork, read statement by statement.
+
+Model/Ktn.lean is a literal transcription of seven small functions (`add_minimum`, `add_ts`,
+`remove_minimum`, `remove_minima`, `remove_ts`, `remove_tss`, `reset_network`, plus `__init__`).  The
+translator accounts for EVERY statement of each of them: a function is accepted only if its body
+(docstring, comments, formatting and annotations aside) is, statement for statement, one of the texts the
+model was transcribed from.  Two places have variants the model can express, and which variant the source
+uses is what is emitted as `Ktn.Cfg`:
+
+  * `add_ts`: the counter is incremented only for a new edge (`if new_edge: self.n_ts += 1`) or always;
+  * `remove_minimum`: the attempt history is filtered and renumbered, or left alone.
+
+Anything else — an added early return, a reordered statement, a bulk networkx call in place of the loop — makes
+that function's kernel "unavailable": the theorems are then about the transcription, not about what the code
+says now, and check.py treats that as a broken tie (deep search, `no-failing-input-found` if nothing is found)."""
 from __future__ import annotations
 
 import ast
@@ -7,67 +20,88 @@ import ast
 from .base import Unavailable, find_function, lean_bool, parse, write_if_changed
 
 FILE = "data/kinetic_transition_network.py"
+CLASS = "KineticTransitionNetwork"
+
+RESET = ["self.G = nx.Graph()", "self.n_minima = 0", "self.n_ts = 0", "self.pairlist = np.empty((0, 2), dtype=int)"]
+ADD_TS_HEAD = ["new_edge = not self.G.has_edge(min_plus, min_minus)",
+               "self.G.add_edge(min_plus, min_minus, coords=np.array(ts_coords, copy=True), energy=energy)"]
+REMOVE_MIN_HEAD = ["new_order = np.arange(self.n_minima)",
+                   "new_order[minimum] = self.n_minima + 1",
+                   "for i in range(minimum, self.n_minima):\n    new_order[i] -= 1",
+                   "mapping = dict(zip(np.arange(self.n_minima), new_order))",
+                   "self.G = nx.relabel_nodes(self.G, mapping, copy=True)",
+                   "self.n_ts -= len(self.G.edges(self.n_minima))",
+                   "self.G.remove_node(self.n_minima)",
+                   "self.n_minima -= 1"]
+HISTORY = ("if self.pairlist.size > 0:\n    pairs = self.pairlist.reshape(-1, 2)\n"
+           "    pairs = pairs[~np.any(pairs == minimum, axis=1)]\n    self.pairlist = pairs - (pairs > minimum)")
+
+# function -> (argument names, {variant name: statement texts})
+SHAPES = {
+    "__init__": (["self"], {"std": RESET + ["with open('logfile', 'w', encoding='utf-8') as outfile:\n    outfile.write(' ')"]}),
+    "reset_network": (["self"], {"std": RESET}),
+    "add_minimum": (["self", "min_coords", "energy"],
+                    {"std": ["self.G.add_node(self.n_minima, coords=np.array(min_coords, copy=True), energy=energy)",
+                             "self.n_minima += 1"]}),
+    "add_ts": (["self", "ts_coords", "energy", "min_plus", "min_minus"],
+               {"counts-only-new": ADD_TS_HEAD + ["if new_edge:\n    self.n_ts += 1"],
+                "counts-always": ADD_TS_HEAD + ["self.n_ts += 1"],
+                "counts-always-plain": [ADD_TS_HEAD[1], "self.n_ts += 1"]}),
+    "remove_minimum": (["self", "minimum"],
+                       {"renumbers-history": REMOVE_MIN_HEAD + [HISTORY], "leaves-history": list(REMOVE_MIN_HEAD)}),
+    "remove_minima": (["self", "minima"],
+                      {"std": ["for c, i in enumerate(np.sort(minima), 0):\n    self.remove_minimum(i - c)"]}),
+    "remove_ts": (["self", "minimum1", "minimum2"], {"std": ["self.G.remove_edge(minimum1, minimum2)", "self.n_ts -= 1"]}),
+    "remove_tss": (["self", "minima"], {"std": ["for i in minima:\n    self.remove_ts(i[0], i[1])"]}),
+}
 
 
-def _is_nts_increment(n: ast.AST) -> bool:
-    if isinstance(n, ast.AugAssign) and isinstance(n.op, ast.Add) and ast.unparse(n.target) == "self.n_ts":
-        return True
-    if isinstance(n, ast.Assign) and ast.unparse(n.targets[0]) == "self.n_ts":
-        return True
-    return False
+def statements(fn: ast.FunctionDef) -> list[str]:
+    body = list(fn.body)
+    if body and isinstance(body[0], ast.Expr) and isinstance(body[0].value, ast.Constant) and isinstance(body[0].value.value, str):
+        body = body[1:]
+    return [ast.unparse(s) for s in body]
 
 
-def add_ts_counts_only_new(fn: ast.FunctionDef) -> bool:
-    """True when every `self.n_ts += 1` sits under an `if` whose test depends on has_edge
-    (directly or through a local assigned from a has_edge expression)."""
-    tainted: set[str] = set()
-    for n in ast.walk(fn):
-        if isinstance(n, ast.Assign) and "has_edge" in ast.unparse(n.value) or \
-                isinstance(n, ast.Assign) and any(t in ast.unparse(n.value).split() for t in tainted):
-            for t in n.targets:
-                if isinstance(t, ast.Name):
-                    tainted.add(t.id)
-    incs = []
-
-    def visit(stmts, guarded):
-        for s in stmts:
-            if _is_nts_increment(s):
-                incs.append(guarded)
-            elif isinstance(s, ast.If):
-                src = ast.unparse(s.test)
-                g = guarded or "has_edge" in src or any(
-                    isinstance(x, ast.Name) and x.id in tainted for x in ast.walk(s.test))
-                visit(s.body, g)
-                visit(s.orelse, g)
-            elif isinstance(s, (ast.For, ast.While, ast.With, ast.Try)):
-                raise Unavailable("add_ts: unexpected control structure")
-    visit(fn.body, False)
-    if not incs:
-        raise Unavailable("add_ts: no n_ts update found")
-    return all(incs)
+def variant_of(tree, name: str) -> str:
+    fn = find_function(tree, name, CLASS)
+    args, variants = SHAPES[name]
+    got_args = [a.arg for a in fn.args.args]
+    if got_args != args or fn.args.vararg or fn.args.kwarg or fn.args.kwonlyargs or \
+            any(not (isinstance(d, ast.Constant)) for d in fn.args.defaults) or fn.args.defaults:
+        raise Unavailable(f"{name}: signature {got_args} (transcribed from {args})")
+    if fn.decorator_list:
+        raise Unavailable(f"{name}: decorated")
+    got = statements(fn)
+    for v, want in variants.items():
+        if got == want:
+            return v
+    # say where the first difference is
+    want = next(iter(variants.values()))
+    for k, (a, b) in enumerate(zip(got, want)):
+        if a != b:
+            raise Unavailable(f"{name}: statement {k + 1} is `{a[:70]}`, the model was transcribed from `{b[:70]}`")
+    raise Unavailable(f"{name}: {len(got)} statements, the model was transcribed from {len(want)}")
 
 
-def remove_renumbers_history(fn: ast.FunctionDef) -> bool:
-    return any(isinstance(n, (ast.Assign, ast.AugAssign)) and "self.pairlist" in
-               [ast.unparse(t) for t in (n.targets if isinstance(n, ast.Assign) else [n.target])]
-               for n in ast.walk(fn))
-
-
-def regenerate() -> dict:
+def regenerate(only: list[str] | None = None) -> dict:
+    """`only`: the mutators the calling property's model uses (default: all of them)"""
     status = {}
     tree = parse(FILE)
-    try:
-        a = add_ts_counts_only_new(find_function(tree, "add_ts", "KineticTransitionNetwork"))
-        status["Ktn.addTsCountsOnlyNew"] = a
-    except Unavailable as e:
-        a = True
-        status["Ktn.addTsCountsOnlyNew"] = f"unavailable ({e}); correspondence is the only tie"
-    try:
-        r = remove_renumbers_history(find_function(tree, "remove_minimum", "KineticTransitionNetwork"))
-        status["Ktn.removeRenumbersHistory"] = r
-    except Unavailable as e:
-        r = True
-        status["Ktn.removeRenumbersHistory"] = f"unavailable ({e})"
+    found = {}
+    for name in SHAPES:
+        try:
+            found[name] = variant_of(tree, name)
+            status[f"Ktn.{name}"] = f"transcription verified statement by statement ({found[name]})"
+        except Unavailable as e:
+            if only is not None and name not in only:
+                status[f"Ktn.{name}"] = f"differs from the transcription ({e}); not used by this property's model"
+            else:
+                status[f"Ktn.{name}"] = f"unavailable ({e}); correspondence is the only tie"
+    a = found.get("add_ts", "counts-only-new") == "counts-only-new"
+    r = found.get("remove_minimum", "renumbers-history") == "renumbers-history"
+    status["Ktn.addTsCountsOnlyNew"] = a
+    status["Ktn.removeRenumbersHistory"] = r
     text = ("-- REGENERATED on every run by harness/translate/ktn_cfg.py from\n"
             "-- /repo/src/topsearch/data/kinetic_transition_network.py (do not edit)\n"
             "import TopSearch.Model.Ktn\n"
